@@ -603,7 +603,8 @@ def dict_resolver(env):
 
             try:
                 co = codefind.find_code(*hierarchy, module=module or "__main__")
-            except (KeyError, ImportError):
+            except (KeyError, ImportError, TypeError):
+                # TypeError: the module part is a relative name such as "."
                 raise CodeNotFoundError(
                     f"Cannot find a function for the reference '{x}'."
                     " Try calling `ptera.refstring` on the function you want"
